@@ -13,6 +13,7 @@ fn main() {
     if prog == "docker" && a.len() >= 2 {
         match (a[0], a[1]) {
             ("container", "run" | "rm" | "logs" | "port" | "exec") => { a.remove(0); }
+            ("container", "ls" | "list" | "ps") => { a.remove(0); a[0] = "ps"; }
             ("image", "rm" | "remove") => { a.remove(0); a[0] = "rmi"; }
             _ => {}
         }
@@ -27,7 +28,9 @@ fn main() {
         ("docker", Some("exec")) => "exec",
         ("docker", Some("rm")) => "rm",
         ("docker", Some("rmi")) => "rmi",
-        ("docker", Some("volume")) => "volume-rm",
+        ("docker", Some("volume")) if a.get(1).is_some_and(|x| *x == "rm" || *x == "remove") => "volume-rm",
+        ("docker", Some("ps")) => "ps",
+        ("docker", Some("image" | "container" | "volume" | "system")) if a.get(1) == Some(&"prune") => "prune",
         _ => "unknown",
     };
     let state = std::path::PathBuf::from(std::env::var("STANDIN_STATE").expect("STANDIN_STATE"));
@@ -101,15 +104,63 @@ fn main() {
     }
     // containers, like the image: `docker logs|port|exec <name>` of a container that was never started
     // successfully fails with "No such container"
-    if kind == "run-detached" && outcome == "ok" {
-        if let Some(i) = a.iter().position(|x| *x == "--name") { if let Some(n) = a.get(i + 1) { let _ = std::fs::write(state.join(format!("container-{n}")), "x"); } }
+    // (a `docker run` that fails to start its process has still created the container: it is listed by
+    // `docker ps --all`, not by `docker ps`, and nothing can be done with it but remove it)
+    if kind == "run-detached" {
+        if let Some(i) = a.iter().position(|x| *x == "--name") { if let Some(n) = a.get(i + 1) { let _ = std::fs::write(state.join(format!("container-{n}")), if outcome == "ok" { "x" } else { "created" }); } }
     }
     if matches!(kind, "logs" | "port" | "exec") {
         let name = a.iter().skip(1).find(|x| !x.starts_with('-')).copied().unwrap_or("");
-        if !state.join(format!("container-{name}")).exists() {
-            eprintln!("Error response from daemon: No such container: {name}");
-            std::process::exit(1);
+        match std::fs::read_to_string(state.join(format!("container-{name}"))).ok().as_deref() {
+            None => {
+                eprintln!("Error response from daemon: No such container: {name}");
+                std::process::exit(1);
+            }
+            Some("created") => {
+                eprintln!("Error response from daemon: container {name} is not running");
+                std::process::exit(1);
+            }
+            Some(_) => {}
         }
+    }
+    // the daemon also holds things this run did not create (state/foreign/*): `prune` is host-wide
+    if kind == "prune" {
+        let all = a.contains(&"--all") || a.contains(&"-a");
+        let gone: &[&str] = match a[0] {
+            "image" => if all { &["dangling-image", "image"] } else { &["dangling-image"] },
+            "container" => &["container"],
+            "volume" => &["volume"],
+            _ => if a.contains(&"--volumes") { &["dangling-image", "container", "volume"] } else { &["dangling-image", "container"] },
+        };
+        for g in gone { let _ = std::fs::remove_file(state.join("foreign").join(g)); }
+    }
+    // `docker ps`: running containers only, unless --all; --filter name=<pattern>; --quiet prints ids
+    if kind == "ps" {
+        let all = a.contains(&"--all") || a.contains(&"-a");
+        let pattern = a.iter().position(|x| *x == "--filter" || *x == "-f").and_then(|i| a.get(i + 1)).and_then(|f| f.strip_prefix("name="))
+            .or_else(|| a.iter().find_map(|x| x.strip_prefix("--filter=name=")));
+        let matches = |name: &str| pattern.is_none_or(|p| {
+            let core = p.trim_start_matches('^').trim_end_matches('$');
+            if p.starts_with('^') && p.ends_with('$') { name == core } else if p.starts_with('^') { name.starts_with(core) } else if p.ends_with('$') { name.ends_with(core) } else { name.contains(core) }
+        });
+        if let Ok(rd) = std::fs::read_dir(&state) {
+            for e in rd.flatten() {
+                let f = e.file_name().to_string_lossy().to_string();
+                if let Some(name) = f.strip_prefix("container-") {
+                    let running = std::fs::read_to_string(e.path()).is_ok_and(|c| c == "x");
+                    if (running || all) && matches(name) { println!("{:012x}", name.bytes().fold(7u64, |h, b| h.wrapping_mul(31).wrapping_add(u64::from(b))) & 0xffff_ffff_ffff); }
+                }
+            }
+        }
+    }
+    // a container whose log was followed to the end has exited (it is still there until removed)
+    if kind == "logs" && (a.contains(&"--follow") || a.contains(&"-f")) {
+        let name = a.iter().skip(1).find(|x| !x.starts_with('-')).copied().unwrap_or("");
+        let f = state.join(format!("container-{name}"));
+        if f.exists() { let _ = std::fs::write(f, "exited"); }
+    }
+    if kind == "rm" {
+        for name in a.iter().skip(1).filter(|x| !x.starts_with('-')) { let _ = std::fs::remove_file(state.join(format!("container-{name}"))); }
     }
     if outcome == "fail" {
         // like a real failing build: a long log full of multi-byte characters (and a stray invalid byte) on
